@@ -42,7 +42,7 @@ func (g *aspGen) startStmt() { g.curOps = 0 }
 
 func (g *aspGen) declare(name string, t AspType, e ex) *avar {
 	v := &avar{name: name, t: t, aliased: !e.fresh, nonASCII: e.nonASCII, rng: e.rng, ln: e.ln, depth: g.depth,
-		folded: e.fold || (e.constLit && t.K == AspList && g.reeval())}
+		folded: e.fold || (e.cpart && g.reeval())}
 	if g.depth > 0 {
 		v.ln = -1
 	}
@@ -156,7 +156,7 @@ func (g *aspGen) reassign(ind int) {
 		g.markAliased(e)
 	}
 	v.nonASCII = v.nonASCII || e.nonASCII
-	fold := e.fold || (e.constLit && v.t.K == AspList && g.reeval())
+	fold := e.fold || (e.cpart && g.reeval())
 	if g.depth > v.depth {
 		// conditional assignment: the old value may survive
 		v.aliased, v.folded, v.ln = v.aliased || !e.fresh, v.folded || fold, -1
@@ -301,7 +301,7 @@ func (g *aspGen) forStmt(ind int) {
 	}
 	if lv == nil {
 		src, et := g.iterSource(g.n(0, 2, "depth"))
-		x := &avar{name: g.name("x"), t: et, ro: true, aliased: true, ln: -1, nonASCII: true, folded: src.fold || src.constLit}
+		x := &avar{name: g.name("x"), t: et, ro: true, aliased: true, ln: -1, nonASCII: true, folded: src.fold || (src.cpart && g.reeval())}
 		lv = []*avar{x}
 		names = x.name + " in " + src.s
 	}
@@ -432,7 +432,7 @@ func (g *aspGen) noteReturn(f *afunc, r ex) {
 	if !r.fresh {
 		g.markAliased(r)
 	}
-	if r.fold || (r.constLit && f.ret.K == AspList) {
+	if r.fold || r.cpart {
 		f.folded = true
 	}
 }
